@@ -8,10 +8,47 @@ import (
 	"sync"
 )
 
+// c07case: one line of FilterEnum / FilterSim.  r0 / r1: prefix structure A
+// with NeMissing FALSE / TRUE; b0 / b1: structure B; absent fields equal the
+// field they cannot differ from (see FilterEnum.Case).
 type c07case struct {
 	F  AST   `json:"f"`
 	R0 []int `json:"r0"`
 	R1 []int `json:"r1"`
+	B0 []int `json:"b0"`
+	B1 []int `json:"b1"`
+}
+
+func (c *c07case) normalize() bool {
+	if c.F == nil || len(c.R0) != nMaps {
+		return false
+	}
+	ne, pre := c.R1 != nil, c.B0 != nil
+	if !ne {
+		c.R1 = c.R0
+	}
+	if !pre {
+		c.B0 = c.R0
+	}
+	if c.B1 == nil {
+		switch {
+		case ne && pre:
+			return false // FilterEnum prints b1 in this case
+		case ne:
+			c.B1 = c.R1
+		default:
+			c.B1 = c.B0
+		}
+	}
+	return len(c.R1) == nMaps && len(c.B0) == nMaps && len(c.B1) == nMaps
+}
+
+// refs: the two reference verdict vectors (NeMissing FALSE, TRUE) for a vocabulary
+func (c *c07case) refs(v vocab) ([]int, []int) {
+	if v.Rel == "B" {
+		return c.B0, c.B1
+	}
+	return c.R0, c.R1
 }
 
 const nMaps = 64
@@ -103,8 +140,9 @@ func differs(a, b []int) bool {
 
 // compareRef compares implementation results with both references.
 func compareRef(res *result, tally *neTally, c c07case, got []int, filt string, v vocab, via string) {
+	ref0, ref1 := c.refs(v)
 	for i := 0; i < nMaps; i++ {
-		r0, r1 := c.R0[i], c.R1[i]
+		r0, r1 := ref0[i], ref1[i]
 		rp := map[string]any{"kind": "c07-eval", "via": via, "filter": filt, "attrs": attrsOf(i, v), "vocab": v, "map": i,
 			"ast": c.F, "ref_ne_missing_false": r0, "ref_ne_missing_true": r1}
 		if r0 == r1 {
@@ -129,7 +167,7 @@ func compareRef(res *result, tally *neTally, c c07case, got []int, filt string, 
 
 func checkC07Case(res *result, tally *neTally, sel *e2eSel, idx int64, raw []byte, seed int64, variants int) {
 	var c c07case
-	if err := json.Unmarshal(raw, &c); err != nil || c.F == nil || len(c.R0) != nMaps || len(c.R1) != nMaps {
+	if err := json.Unmarshal(raw, &c); err != nil || !c.normalize() {
 		res.count("bad_lines", 1)
 		return
 	}
@@ -141,6 +179,9 @@ func checkC07Case(res *result, tally *neTally, sel *e2eSel, idx int64, raw []byt
 	res.count(fmt.Sprintf("asts_%d_leaves", leaves), 1)
 	if differs(c.R0, c.R1) {
 		res.count("asts_ne_sensitive", 1)
+	}
+	if differs(c.R0, c.B0) {
+		res.count("asts_prefix_structure_sensitive", 1)
 	}
 	if nontrivial && sel != nil {
 		sel.offer(e2ePick{prio: hash64([]byte(fmt.Sprintf("%d/%d", seed, idx))), idx: idx, c: c})
@@ -172,7 +213,7 @@ func checkC07Case(res *result, tally *neTally, sel *e2eSel, idx int64, raw []byt
 		res.count("evaluations", nMaps)
 		compareRef(res, tally, c, got, s, v, "direct")
 		if vi == 0 {
-			res.sample(3, map[string]any{"ast": c.F, "filter": s, "vocab": v, "attrs": attrsOf(27, v), "impl": got[27], "ref_ne_missing_false": c.R0[27], "ref_ne_missing_true": c.R1[27]})
+			res.sample(3, map[string]any{"ast": c.F, "filter": s, "vocab": v, "attrs": attrsOf(27, v), "impl": got[27], "ref_ne_missing_false": pick0(c, v)[27], "ref_ne_missing_true": pick1(c, v)[27]})
 			// determinism: the same parsed filter again, and a fresh parse of the same text
 			again, _, _ := evalAll(p.F, maps)
 			if differs(got, again) {
@@ -254,6 +295,9 @@ func checkC07Case(res *result, tally *neTally, sel *e2eSel, idx int64, raw []byt
 		}
 	}
 }
+
+func pick0(c c07case, v vocab) []int { r, _ := c.refs(v); return r }
+func pick1(c c07case, v vocab) []int { _, r := c.refs(v); return r }
 
 func kindOf(o outcome) string {
 	if o.Timeout {
@@ -378,7 +422,7 @@ func runC07E2E(res *result, tally *neTally, sel *e2eSel, seed int64, group int, 
 			if sr.Create != "OK" {
 				res.add(violation{Clause: "C07:parse", Detail: "valid-filter-rejected", Msg: fmt.Sprintf("CreateSubscription(filter=%q): %s", s, sr.Create),
 					Replay: map[string]any{"kind": "grpc-job", "job": grpcJob{Kind: "e2e", ID: 0, Vocab: &g.v, Filters: []e2eJobFilter{{Idx: p.idx, S: s}}},
-						"expect_r0": p.c.R0, "expect_r1": p.c.R1}})
+						"expect_r0": pick0(p.c, g.v), "expect_r1": pick1(p.c, g.v)}})
 				continue
 			}
 			got := make([]int, nMaps)
@@ -392,7 +436,7 @@ func runC07E2E(res *result, tally *neTally, sel *e2eSel, seed int64, group int, 
 			res.count("evaluations", nMaps)
 			compareRefE2E(res, tally, p.c, got, s, g.v, p.idx)
 			if k == 0 {
-				res.sample(5, map[string]any{"via": "grpc", "filter": s, "vocab": g.v, "received_message_numbers": sr.Got, "reference_ne_missing_false": joinInts(p.c.R0)})
+				res.sample(5, map[string]any{"via": "grpc", "filter": s, "vocab": g.v, "received_message_numbers": sr.Got, "reference_ne_missing_false": joinInts(pick0(p.c, g.v))})
 			}
 		}
 	}
@@ -401,9 +445,10 @@ func runC07E2E(res *result, tally *neTally, sel *e2eSel, seed int64, group int, 
 
 func compareRefE2E(res *result, tally *neTally, c c07case, got []int, filt string, v vocab, idx int64) {
 	job := grpcJob{Kind: "e2e", ID: 0, Vocab: &v, Filters: []e2eJobFilter{{Idx: idx, S: filt}}}
+	ref0, ref1 := c.refs(v)
 	for i := 0; i < nMaps; i++ {
-		r0, r1 := c.R0[i], c.R1[i]
-		rp := map[string]any{"kind": "grpc-job", "job": job, "expect_r0": c.R0, "expect_r1": c.R1, "map": i, "attrs": attrsOf(i, v)}
+		r0, r1 := ref0[i], ref1[i]
+		rp := map[string]any{"kind": "grpc-job", "job": job, "expect_r0": ref0, "expect_r1": ref1, "map": i, "attrs": attrsOf(i, v)}
 		if r0 == r1 {
 			rp["expect"] = []int{r0}
 			if got[i] != r0 {
